@@ -48,7 +48,12 @@ class VLoop(asyncio.SelectorEventLoop):
     def _run_once(self):
         self.step += 1
         if self.step_cost_ns and (self._ready or self._scheduled):
-            self._vnow_ns += self.step_cost_ns
+            # real time passes while the loop iterates; a list means "drawn per iteration"
+            if isinstance(self.step_cost_ns, (list, tuple)):
+                self._cost_rng = getattr(self, "_cost_rng", None) or __import__("random").Random(self.step_cost_ns[0])
+                self._vnow_ns += self._cost_rng.choice(self.step_cost_ns[1:])
+            else:
+                self._vnow_ns += self.step_cost_ns
         if self.max_steps is not None and self.step > self.max_steps:
             self.budget_exceeded = True
             self.stop()
